@@ -397,6 +397,34 @@ func assignedInClear(p *core.Program, t *types.Named, seen map[*types.Named]bool
 					}
 				}
 			}
+		case *ast.RangeStmt:
+			// for _, c := range <fixed list of &this.F> { *c = <zero> }: every listed field is assigned
+			if vid, ok := v.Value.(*ast.Ident); ok && v.Body != nil {
+				vobj := info.ObjectOf(vid)
+				stores := false
+				ast.Inspect(v.Body, func(m ast.Node) bool {
+					if as, ok := m.(*ast.AssignStmt); ok {
+						for _, l := range as.Lhs {
+							if st, ok := ast.Unparen(l).(*ast.StarExpr); ok {
+								if id, ok := ast.Unparen(st.X).(*ast.Ident); ok && info.ObjectOf(id) == vobj {
+									stores = true
+								}
+							}
+						}
+					}
+					return true
+				})
+				if stores {
+					in := newInliner(p, fi, nil)
+					for _, el := range in.FixedList(v) {
+						if u, ok := ast.Unparen(el).(*ast.UnaryExpr); ok && u.Op == token.AND {
+							if sel, ok := ast.Unparen(u.X).(*ast.SelectorExpr); ok {
+								out[sel.Sel.Name] = true
+							}
+						}
+					}
+				}
+			}
 		case *ast.CallExpr:
 			if sel, ok := v.Fun.(*ast.SelectorExpr); ok && sel.Sel.Name == "Clear" {
 				if tv, ok := info.Types[sel.X]; ok {
